@@ -7,3 +7,7 @@ import Glas.Props.C06
 #print axioms Glas.Props.C06.listed_of_cls
 #print axioms Glas.Props.C06.exact_iff
 #print axioms Glas.Props.C06.refs_closed
+#print axioms Glas.Props.C06.own_in_scope
+#print axioms Glas.Props.C06.graph_in_scope
+#print axioms Glas.Props.C06.local_scope
+#print axioms Glas.Props.C06.exact_iff_scoped
